@@ -2,6 +2,7 @@
 
 # the merkleroot harness of C05 re-uses the Coq-term printers and generators of the C03 harness file
 _MR = ['harness/commit/merkleroot/c03_test.go', 'harness/commit/merkleroot/c05_test.go']
+_MRL = _MR + ['harness/commit/merkleroot/c05life_test.go']
 
 SPEC = {
     'id': 'C05',
@@ -14,13 +15,31 @@ SPEC = {
          'sinks': {'C05_build': 'build_judge'}, 'n': {'quick': 700, 'thorough': 30000}},
         {'pkg': 'commit/merkleroot', 'pkgname': 'merkleroot', 'fakes': True, 'src': _MR, 'test': 'TestVerif_C05_chain',
          'sinks': {'C05_chain': 'chain_judge'}, 'n': {'quick': 200, 'thorough': 4000}},
+        {'pkg': 'commit/merkleroot', 'pkgname': 'merkleroot', 'fakes': True, 'src': _MRL, 'test': 'TestVerif_C05_life',
+         'sinks': {'C05_life': 'life_judge'}, 'n': {'quick': 60, 'thorough': 1800}},
         {'pkg': 'commit', 'src': 'harness/commit/c05_test.go', 'test': 'TestVerif_C05_report', 'fakes': True,
          'sinks': {'C05_report': 'rep5_judge'}, 'n': {'quick': 400, 'thorough': 10000}},
+        {'pkg': 'commit', 'src': 'harness/commit/c05_test.go', 'test': 'TestVerif_C05_replife', 'fakes': True,
+         'sinks': {'C05_replife': 'rep5_judge'}, 'n': {'quick': 60, 'thorough': 1500}},
         {'pkg': 'commit', 'src': 'harness/commit/c05_test.go', 'test': 'TestVerif_C05_gate', 'fakes': True,
          'sinks': {'C05_gate': 'gate5_judge'}, 'n': {'quick': 400, 'thorough': 10000}},
     ],
     'known': {},
-    'rule': 'chain: histories of 3..10 rounds of the processor chain, processors built with the real NewProcessor (real observerImpl over a '
+    'rule': 'life: 60 histories of 8..16 rounds (thorough 1800) on ONE long-lived set of four processors (real NewProcessor, one RMN controller fake, '
+            'one recording crypto fake and the shared RMNHome reader fake per oracle, built once per history; Query by the leader, Observation / '
+            'ValidateObservation / Outcome by every oracle each round, outcome fed back through JSON; a round without quorum is followed by another '
+            'round on the same outcome). Between the rounds the environment moves, per history one aspect, two, or all of: RMNRemote signer set '
+            '(one rotated, all replaced, reordered, grown, shrunk, a retired key back), F, ConfigVersion, ConfigDigest (RMNHome digest), contract '
+            'address, report version, config absent / back, RMNHome node set, off-ramp address, on-ramp addresses; also message arrival (0..2 per '
+            'round or none) and transmission odds (0..3 of 3), RMNHome reader / InitConnection failing 1 round in 10, address lookups failing. '
+            'Crypto fake = a signature scheme: a signature is made by one key over one report, valid iff its key is among the signer addresses '
+            'handed over and the report handed over is the signed one; it records every call. Leader: honest (the controller fake signs what it is asked '
+            'for, with the keys and fields of the config it is HANDED; modes all lanes / other roots / subset / timeout / error) or Byzantine bundle '
+            'with keys {current = agreed in the selecting round, removed = agreed earlier in this history, future = on chain now but not agreed, '
+            'mixed, foreign, F of them, none, signatures replayed from an accepted bundle of an earlier round (around the new lanes or verbatim)} x report '
+            'fields of {agreed, an earlier agreed, on-chain} config x lanes {matching, other roots, subset}, retry flag 1 in 8, nil signature 1 in 25; '
+            'replife: 60 histories of 4..12 cycles of Reports + ShouldAcceptAttestedReport on ONE commit.Plugin with F_rmn, signatures, roots, prices '
+            'changing per cycle; chain: histories of 3..10 rounds of the processor chain, processors built with the real NewProcessor (real observerImpl over a '
             'scripted honest reader, real ccipChainSupport over a fake home chain, 4 oracles, F=1), RMN on (4/5) or off: leader = '
             'Processor.Query with a scripted rmn.Controller (signatures for the true roots / for other roots / rmn.ErrTimeout / error) or a '
             'Byzantine query from {retry flag} x {bundle absent, matching the true roots with the crypto oracle accepting (honest) or rejecting '
@@ -37,10 +56,14 @@ SPEC = {
             'subset / superset / duplicate / none / malformed; report: Plugin.Reports on outcomes with type x roots 0..3 x signatures '
             '{0,F,F+1,F+2} x F 0..3 x gas prices, and what it emits handed to ShouldAcceptAttestedReport; gate: '
             'ShouldAcceptAttestedReport on hand-made reports with RemoteF in {0..3, 2^63-2, 2^63-1, 2^63, 2^64-2, 2^64-1}. '
-            'non-trivial = chain and obs: RMN enabled and building state; build: >= 1 agreed root and a bundle; report / gate: >= 1 root and '
+            'non-trivial = life, chain and obs: RMN enabled and building state; replife as report; build: >= 1 agreed root and a bundle; report / gate: >= 1 root and '
             'RMN enabled; distinct by full input',
     'trusted': ['RMNCrypto.VerifyReportSignatures is an oracle (a predicate over signatures, report and signer addresses); the '
                 'theorems hold for every such predicate; the harness uses a recording fake and compares the arguments of the call',
+                'life part: the harness instantiates that oracle with a signature scheme (key in the signer list and report equal to the signed '
+                'one); the judge evaluates the same predicate (toy_verify) on the arguments the model expects, so a call with other arguments, a '
+                'skipped call and a wrongly accepted bundle are all seen; sha256 of the canonical report is taken as collision free',
+                'life part: the digest an RMN controller is connected with is state of the controller (read from the fake), not of the Processor',
                 'chainsel.ChainBySelector, CCIPReader.GetContractAddress, RMN controller initialisation are oracles (inputs)',
                 'the report codec (JSON mock) and ReportInfo JSON round trip are exercised, not modelled',
                 'getConsensusObservation (C01) is an input: the harness hands the real result to the model',
@@ -48,18 +71,25 @@ SPEC = {
                 'refuses produces no outcome (used to read C05_reported_roots_verified as the end-to-end statement)'],
     'assumptions': ['every previous outcome was written by the state machine itself (sigs_imply_roots is an invariant, it holds of the '
                     'initial empty outcome)'],
-    'level_text': 'Proof: 19 Coq theorems. Observation in a building round (RMN enabled, no retry) succeeds only with a well-formed '
+    'level_text': 'Proof: 24 Coq theorems. History level (Model/C05Life.v, one long-lived Processor over any list of rounds with an arbitrary '
+                  'environment per round, induction over the round list): the history is a chain of previous outcomes; in EVERY round of EVERY '
+                  'history the crypto oracle is consulted only in a building round and with exactly the signer addresses, report version, contract '
+                  'address and digest of THAT round\'s previous outcome (C05_life_verified_against_agreed_config: no earlier round, no initial state, '
+                  'no controller connection occurs); a new outcome carrying roots is written only under a bundle accepted against that set, its roots '
+                  'among the verified lane updates, its signatures the verified ones, its RMN config (F_rmn) the previous outcome\'s '
+                  '(C05_life_roots_need_verified_bundle, premise quorum_sound); two instances that reached the same previous outcome by any two '
+                  'histories from any two states behave alike in the next round (C05_life_round_memoryless, C05_life_call_memoryless). Round level: Observation in a building round (RMN enabled, no retry) succeeds only with a well-formed '
                   'bundle whose signatures the crypto oracle accepted for exactly the report built from the previous outcome\'s RMN '
                   'config and the bundle\'s lane updates; a bundle in any other round is refused; the only unverified observations are '
                   'RMN off / no bundle outside building / announced retry; with a bundle the reported roots are exactly the agreed '
                   'roots equal to a signed lane update on chain, interval, address and root (iff), sorted, one per chain; composition '
                   'of the two; signatures never without roots over any run and in the emitted report (after fixes/F11.patch); accepted '
                   'with roots only with F+1 signatures for every F (after fixes/F28.patch); an announced retry is inert in Observation, ValidateObservation and Outcome together; the value returned next to a refused observation is empty; roots are observed only in a building round for the previous outcome\'s ranges; the honest leader\'s query comes from the controller asked for exactly those ranges; refutations of the unrepaired functions '
-                  '(F10 panic, F11, F28). Correspondence: the chain Query -> Observation -> ValidateObservation -> Outcome over histories, Observation with a recording crypto fake, Outcome, Reports and '
+                  '(F10 panic, F11, F28). Correspondence: ONE long-lived set of processors over several report cycles with the RMN remote config / RMNHome / addresses / bundles changing between rounds, judged per round against the memoryless model on the round\'s current inputs (life), one long-lived Plugin over report cycles (replife), the chain Query -> Observation -> ValidateObservation -> Outcome over histories, Observation with a recording crypto fake, Outcome, Reports and '
                   'ShouldAcceptAttestedReport run against the model every run',
     'level_note': 'Trusted: Coq kernel, hand-written model, differential harness. Signature verification, address lookups and the '
                   'consensus computation are oracles / inputs. No axioms.',
-    'modelled': 'Processor.Query (controller answer as input), getObservation (observer answers as inputs; the merkle roots through the C02 model of ObserveMerkleRoots on the previous outcome\'s ranges), the retry rule of ValidateObservation, initializeRMNController (as an input code), verifyQuery, shouldSkipRMNVerification, NewECDSASigsFromPB, '
+    'modelled': 'initializeRMNController over rounds (init_step: InitConnection iff RMN on, config present, controller connected with another digest; arguments = digest of the previous outcome, node set RMNHome shows now), Processor.Query (controller answer as input), getObservation (observer answers as inputs; the merkle roots through the C02 model of ObserveMerkleRoots on the previous outcome\'s ranges), the retry rule of ValidateObservation, initializeRMNController (as an input code), verifyQuery, shouldSkipRMNVerification, NewECDSASigsFromPB, '
                 'NewLaneUpdatesFromPB, buildReport, the merkle-root part of Plugin.Reports, the RMN gate of ShouldAcceptAttestedReport '
                 '(curse check and decode errors are inputs, see C16/C15). A commit.Plugin constructed by NewPlugin with RMN enabled is not driven: NewPlugin builds the real rmn.Controller from a PeerClient, the scripted controller can only be injected at the processor (NewProcessor), which is what the chain part does. With RMN disabled a leader-supplied bundle still filters '
                 'roots in buildReport (observation F10b; not part of the property text)',
